@@ -84,7 +84,9 @@ Definition apiPop (r : registry) (base n : Z) : ares := popLoop r base (Z.to_nat
 Definition apiInsert (r : registry) (base : Z) (v : cell) (index : Z) : ares :=
   let reg := indexToReg r base index in
   let t := top r in
-  if reg >=? t then lift (Set_ r reg v)
+  if reg >=? t then
+    (* if reg > top { ls.reg.SetTop(reg) }: the cells skipped become LNil (fix of C10 obs-4) *)
+    lift (r1 <- (if reg >? t then SetTop r reg else Ok r) ;; Set_ r1 reg v)
   else
     let reg := if reg <=? base then base else reg in
     lift (r1 <- insertLoop r (t - 1) (Z.to_nat (t - reg)) ;; Set_ r1 reg v).
@@ -201,12 +203,13 @@ Definition L_pop (l : list cell) (n : Z) : list cell * bool :=
   else ([Some VMsg], true).
 
 (* Insert(v, idx): v becomes element number a, the former a.. move up; an index at or below the
-   bottom (0, or negative beyond -n) means the bottom.  Domain: a <= n + 1. *)
+   bottom (0, or negative beyond -n) means the bottom; beyond top+1 the list is nil-extended first. *)
 Definition insPos (n idx : Z) : Z :=
   if idx >? 0 then idx else if validIdx n idx then absIndex n idx else 1.
 Definition L_insert (l : list cell) (v : cell) (idx : Z) : list cell :=
   let a := insPos (len l) idx in
-  firstn (Z.to_nat (a - 1)) l ++ v :: skipn (Z.to_nat (a - 1)) l.
+  if a >? len l + 1 then resizeL l (a - 1) ++ [v]
+  else firstn (Z.to_nat (a - 1)) l ++ v :: skipn (Z.to_nat (a - 1)) l.
 
 Definition L_remove (l : list cell) (idx : Z) : list cell :=
   if validIdx (len l) idx then
@@ -217,7 +220,7 @@ Definition L_remove (l : list cell) (idx : Z) : list cell :=
 (* the domain of the list specification for one operation on a list of n elements *)
 Definition aop_dom (n : Z) (o : aop) : bool :=
   match o with
-  | AInsert _ idx => insPos n idx <=? n + 1           (* beyond top+1 leaves Go-nil holes: outside *)
+  | AInsert _ idx => RegistryIndex <? idx
   | ASetTop idx | AGet idx | ARemove idx => RegistryIndex <? idx
   | AReplace idx _ => RegistryIndex <? idx
   | _ => true
@@ -264,7 +267,7 @@ Definition aneed (b n : Z) (o : aop) : Z :=
   match o with
   | APush _ => b + n + 1
   | ASetTop idx => if idx >=? 0 then b + idx else 0
-  | AInsert _ _ => b + n + 1
+  | AInsert _ idx => b + Z.max (n + 1) (insPos n idx)
   | _ => 0
   end.
 
